@@ -54,6 +54,8 @@ Seeds ==
                           \cup {NewArgs("bag", NUCLEOTIDS, p, <<Row(nA, <<65>>), Row(nC, <<65, 67, 97>>)>>) : p \in {0, 2}}
                           \cup {NewArgs("align", NUCLEOTIDS, 0, <<Row(<<32, 98, 46, 46, 99>>, <<65, 84, 71, 45, 45, 45>>), Row(nA, <<97, 116, 103, 78, 78, 78>>)>>),
                                 NewArgs("align", NUCLEOTIDS, 0, <<Row(nA, <<65, 67, 65, 45, 65>>), Row(nB, <<65, 84, 65, 45, 67>>)>>),
+                                \* a row whose name is the short name another row will get (abcdefgh, abcdef01 at size 8)
+                                NewArgs("align", NUCLEOTIDS, 0, <<Row(<<97, 98, 99, 100, 101, 102, 103, 104>>, <<65, 67>>), Row(<<97, 98, 99, 100, 101, 102, 48, 49>>, <<71, 71>>)>>),
                                 \* names sharing a prefix (abcd1, abcd2, abxy3)
                                 NewArgs("align", NUCLEOTIDS, 0, <<Row(<<97, 98, 99, 100, 49>>, <<65, 67>>), Row(<<97, 98, 99, 100, 50>>, <<65, 71>>), Row(<<97, 98, 120, 121, 51>>, <<84, 71>>)>>)},
                     y \in {NewArgs("align", NUCLEOTIDS, 0, <<Row(nB, <<71, 71>>), Row(nC, <<45, 84>>)>>),
@@ -210,7 +212,7 @@ InstC01(h) ==
           Inst("Deduplicate", r, [nasgap |-> FALSE]), Inst("Deduplicate", r, [nasgap |-> TRUE]),
           Inst("CloneSeqBag", r, NoArg), Inst("AutoAlphabet", r, NoArg), Inst("ShuffleSequences", r, [seed |-> 7]),
           Inst("ToUpper", r, NoArg), Inst("Unalign", r, NoArg)}
-    \cup {Inst("TrimNames", r, [size |-> k]) : k \in {1, 2, 3, 5}}
+    \cup {Inst("TrimNames", r, [size |-> k]) : k \in {1, 2, 3, 5, 8}}
     \* a name map that already holds the short name of a LATER row (or of a name that is not there)
     \cup {Inst("TrimNames", r, [size |-> 4, prev |-> pv]) :
             pv \in {<<[f |-> <<97, 98, 99, 100, 50>>, t |-> <<97, 98, 48, 49>>]>>, <<[f |-> <<97, 98, 120, 121, 51>>, t |-> <<97, 98, 48, 50>>]>>,
